@@ -16,10 +16,57 @@ CLAIMS = {
         'FIFO/LIFO order for every n, complete-iteration theorem (every element visited once, in order, under arbitrary '
         'keep/remove/replace actions incl. removal of the last element; destructor log exact). Tie: full-trace differential runs of the '
         'extracted model against the real code under ASan (random + all short op sequences).',
-   note=NOTE_COMMON + 'Below the model: pointer-level memory safety of the library code itself (judged by ASan on executed scripts only).',
+   note=NOTE_COMMON + 'Below the model: pointer-level memory safety of the library code itself (judged by ASan on executed scripts only). '
+        'List: complete-iteration theorem with iterator insertion not yet proved (covered by the differential runs).',
    technique='Coq proof (invariant + refinement by induction over op lists) tied by extracted-model differential testing',
    design='7/C12'),
+ 'C11': dict(
+   text='Coq theorems for EVERY comparator consistent with a total order on keys: search-tree invariant for every op list, set semantics of '
+        'insert/find/remove/len with the exact destructor target, sorted in-order traversal and pre/post-order consistency, complete iteration '
+        'with removal of arbitrary elements; the default pointer comparator and the drivers comparators are proved to meet the contract for '
+        'all 64-bit values. Tie: differential runs (all insertion orders of 5 keys x removals, random ops, pointers up to 2^64 apart).',
+   note=NOTE_COMMON + 'Parent pointers of the C tree are not represented (iterator modelled by values); their maintenance is covered by the differential runs and ASan only.',
+   technique='Coq proof (BST invariant, refinement to sorted lists) tied by extracted-model differential testing', design='7/C11'),
+ 'C10': dict(
+   text='Coq theorems: layout (alignment for every size given a max-aligned allocator, shift byte, exact size, header round-trip) on the model '
+        'arithmetic fed by constants regenerated from the tree; reference counting for every op sequence with nested destructors: blocks alive '
+        'while referenced, unref of the last reference destroys exactly once, destructor before free, each block at most once, fuel of the model '
+        'loop proved sufficient. Tie: differential runs incl. EVERY size 0..4096 (offset, bytes requested, alignment, ASan-checked writability).',
+   note=NOTE_COMMON + 'The layout functions are hand-written (no C-to-Gallina translator); they are compared with the real m_mem_new on every size of the sweep.',
+   technique='Coq proof (loop invariants over a work-list model) tied by extracted-model differential testing', design='7/C10'),
+ 'C05': dict(
+   level='translation_validation',
+   text='Executable Gallina model of map.c (probing bounded by size/2, doubling rehash with revert, back-shift deletion with the corrected '
+        'criterion, slot-order iterators) for an ARBITRARY hash function, run against the real map on adversarial key pools chosen with the '
+        'real hash (same home slot, last slots, consecutive homes, clusters > size/2, growth), plus an independent monitor of the iteration '
+        'clause. The Coq theorems (invariant / dictionary refinement) are not finished: this check is claimed as differential validation only.',
+   note=NOTE_COMMON + 'No theorem is claimed for C05 yet. Known finding D12 (double visit on iteration-with-removal across the table end) is listed in known_findings.txt.',
+   technique='extracted-model differential testing + trace monitor (proofs pending)', design='7/C05'),
 }
+CORE_TEXT = {
+ 'C01': 'guards of every state-changing call refuse without effect (any wrong state, zombies, no context); plus per-run monitors: no handler for a non-RUNNING module, reported running count = RUNNING modules',
+ 'C02': 'copies: ineligible modules get nothing, eligible ones exactly one copy appended at the tail of their pipe carrying sender/topic/payload, full pipe drops the copy, capacity >= 8192, direct tell reaches the addressee only; per-run monitors: at-most-once, send order, auto-free exactly once',
+ 'C03': 'errno non-interference of event reception, dispatch case analysis, quit code recorded and returned, ready set sound and bounded by max_events, event userdata = source userdata',
+ 'C04': 'ref-counted heap discipline of the model (ref/unref steps, destructor once at zero, use of freed objects flagged); the property itself is judged per run by ASan/UBSan and the allocator census (partial by nature)',
+ 'C07': 'second context refused with EEXIST, every context call / registration without context refused with EPIPE, module operations refused with EPERM, looping or zombie context refuses deregistration, finalized context refuses registration',
+ 'C08': 'copies are appended at the pipe tail, events are appended to the batch in arrival order and handed over in that order; per-run monitor of per-recipient send order incl. pills',
+ 'C09': 'registry steps: present key -> EEXIST, absent -> added, bad priority -> EINVAL without token, deregister present removes exactly that entry, absent -> error without effect, tasks cannot be deregistered',
+ 'C13': 'the flush decision as a function of priority, batch size and accumulated count (high: always, low: never, normal: count >= size, size 0: at once), batch timer hands over everything accumulated',
+ 'C15': 'live name without allow-replace -> EEXIST, deny-pub / deny-sub calls refused, deny-ctx hides the context during the callbacks of the module, reserved topic prefix refused, persistent module not deregistrable while looping',
+ 'C16': 'unstash(n) hands over exactly firstn n of the stash in one invocation and returns that number, stash appends, high priority events refused, both refused unless RUNNING',
+ 'C17': 'become pushes, unbecome pops the top or fails on the empty stack, every invocation runs hd(stack) fixed before the body starts, no empty invocation, both refused unless RUNNING',
+ 'C18': 'token consumption step (unlimited / refused at 0 / decrement) and the bucket bound for EVERY sequence of consumes and refills: successes <= tokens + refills <= burst + refills',
+ 'C19': 'shape of a system notification (system flag, no payload, named sender), pause and resume notify exactly once after the state change',
+ 'C20': 'what each destructor closes: poll handle with the context, user descriptors only with auto-close, internal descriptors when polling stops (idempotent)',
+}
+for _p, _t in CORE_TEXT.items():
+    CLAIMS[_p] = dict(
+        text='Coq one-step theorems over the executable actor-core model, for every behaviour of user callbacks: ' + _t +
+             '. Tie: the extracted model runs the same scripted, re-entrant programs as the real library (ASan/UBSan build, canonical epoll '
+             'order, scripted environment); full traces must agree; a property-level projection decides whether a difference is a violation.',
+        note=NOTE_COMMON + 'Core model = hand-written statement-order transliteration of ctx.c/mod.c/ps.c/src.c/evts.c/epoll.c (coq/CoreModel.v, CoreExec.v) with scripted, re-entrant callbacks. PROVED: the one-step theorems of the property file, for every behaviour of user callbacks. NOT PROVED (decided per run by the differential check and the trace monitors only): statements over whole histories. Out of the model: kqueue/uring plugins, FUSE, dlopen modules, task threads, thresholds firing, real time.',
+        technique='Coq proof of one-step lemmas + extracted-model differential testing with trace monitors (history-level clauses not proved)',
+        design='7/' + _p)
 
 def main():
     props = [json.loads(l)['id'] for l in open(os.path.join(VERIF, 'properties.jsonl'))]
@@ -34,10 +81,10 @@ def main():
             evidence_file='/verif/evidence/%s.json' % pid,
             replay_cmd_template='python3 tools/run.py replay %s {path}' % pid,
             engine=c.get('engine', 'coq+diff'),
-            level_claimed=dict(category='proof', text=c['text'], design_ref='DESIGN.md ' + c['design']),
+            level_claimed=dict(category=c.get('level', 'proof'), text=c['text'], design_ref='DESIGN.md ' + c['design']),
             level_note=c['note'],
             technique=c['technique']))
-    na = [dict(property_id=p, reason='check not built yet in this session (work in progress; see DESIGN.md 11)') for p in props if p not in CLAIMS]
+    na = [dict(property_id=p, reason='check not built yet (thread-level model and deterministic scheduler harness pending; see DESIGN.md 11)') for p in props if p not in CLAIMS]
     m = dict(
         version=1,
         setup_cmd='python3 tools/run.py setup',
